@@ -3,7 +3,7 @@ From Coq Require Import ExtrOcamlBasic.
 From Coq Require Extraction.
 From LJT Require Import model.Quant model.Dct.
 Extraction Language OCaml.
-Extraction "x_c07.ml" mkcfg flss compute_reciprocal quantize_recip_one quantize_simd_one
+Extraction "x_c07.ml" flss compute_reciprocal quantize_recip_one quantize_simd_one
   quantize_one scaled_divisor start_pass_divisors quantize_block rdiv
-  convsamp fdct_islow dct_table idct_islow range_limit_entry range_limit
+  maxsample centersample convsamp fdct_islow dct_table idct_islow range_limit_entry range_limit
   forward_block inverse_block roundtrip_block.
